@@ -2,8 +2,38 @@
 // per-peer limit 2), then both are acknowledged.  exit 1 = the peer's in-use slot count is not back to zero.
 #include "ephemeralnet/core/Node.hpp"
 #include <cstdio>
+#include <string>
+#include <thread>
 using namespace ephemeralnet;
-int main() {
+// scenario idle_timeout: one upload is started and never acknowledged; after the 1 s transfer timeout a tick() with an EMPTY upload
+// queue must release its slot.  scenario gate: per-peer limit 2, two uploads of one peer running -> a third must not be dispatched.
+static int idle_timeout() {
+    Config config{}; config.identity_seed = 23u; config.upload_transfer_timeout = std::chrono::seconds(1);
+    PeerId self{}, peer{}; self[0] = 0xD1; peer[0] = 0xD2;
+    Node node(self, config);
+    ChunkId chunk{}; chunk[0] = 0x23;
+    Node::PendingUploadRequest rq{}; rq.chunk_id = chunk; rq.peer_id = peer; rq.payload_size = 10;
+    node.note_upload_start(rq, 10);
+    std::this_thread::sleep_for(std::chrono::milliseconds(1200));
+    node.tick();
+    const auto key = peer_id_to_string(peer);
+    const auto after = node.active_uploads_per_peer_.count(key) ? node.active_uploads_per_peer_.at(key) : 0;
+    if (after != 0 || !node.active_uploads_.empty()) { std::printf("REPRODUCED: an unacknowledged upload still holds its slot (in-use count %zu) after the transfer timeout and a tick with an empty queue\n", static_cast<std::size_t>(after)); return 1; }
+    std::printf("the timed-out upload was pruned by the idle tick\n");
+    return 0;
+}
+static int gate() {
+    Config config{}; config.identity_seed = 23u; config.upload_max_transfers_per_peer = 2; config.upload_max_parallel_transfers = 0;
+    PeerId self{}, peer{}; self[0] = 0xD1; peer[0] = 0xD2;
+    Node node(self, config);
+    for (std::uint8_t k = 0; k < 2; ++k) { ChunkId c{}; c[0] = k; Node::PendingUploadRequest rq{}; rq.chunk_id = c; rq.peer_id = peer; rq.payload_size = 10; node.note_upload_start(rq, 10); }
+    if (node.can_dispatch_upload(peer)) { std::printf("REPRODUCED: a peer with 2 running uploads and a per-peer limit of 2 is given a third\n"); return 1; }
+    std::printf("the per-peer limit holds\n");
+    return 0;
+}
+int main(int argc, char** argv) {
+    if (argc > 1 && std::string(argv[1]) == "idle_timeout") return idle_timeout();
+    if (argc > 1 && std::string(argv[1]) == "gate") return gate();
     Config config{}; config.identity_seed = 23u; config.upload_max_transfers_per_peer = 2; config.upload_max_parallel_transfers = 4;
     PeerId self{}, peer{}; self[0] = 0xD1; peer[0] = 0xD2;
     Node node(self, config);
